@@ -162,7 +162,9 @@ def search_pkg_egg(stc: int, magic_ok: bool, tc: int, has_py: bool, di: int, off
             dt = DOS_POOL[j]
     dd, dtm = _dos(*dt)
     py_time = int(_epoch(dt))
-    mtime = py_time + off if has_py else tc + off
+    # (the .py's time is a float inside the code under test: keep the source time concrete when it is compared with it)
+    offc = -1 if off < 0 else (1 if off > 0 else 0)
+    mtime = py_time + offc if has_py else tc + off
     files, datas = {}, {}
     if stc == 1:
         files['vpkg/M-MIB' + cext] = (0,) * 7
@@ -320,9 +322,12 @@ def conditions(prop, tier):
         dict(name='C10.PyFileSearcher', fn='search_py', fixed={}, timeout=t,
              bounds='.pyc (absent/dir/file, magic ok or not, unbounded embedded time) and .py (absent/dir/file, unbounded mtime); '
                     'source mtime unbounded; rebuild; open/stat fault at call<=3'),
-        dict(name='C10.PyPackageSearcher.egg', fn='search_pkg_egg', fixed={}, timeout=t,
+    ] + [
+        dict(name='C10.PyPackageSearcher.egg.c%d.p%d' % (stc, hp), fn='search_pkg_egg', fixed=dict(stc=stc, has_py=hp), timeout=t + 80,
              bounds='zipped egg (loader with a file table): .pyc present or not, magic ok or not, unbounded embedded time; .py present or not with a DOS '
-                    'time stamp from a pool; source mtime one second below / equal / above the deciding time; distractor entries; rebuild'),
+                    'time stamp from a pool; source mtime one second below / equal / above the deciding time; distractor entries; rebuild')
+        for stc in (0, 1) for hp in (False, True)
+    ] + [
         dict(name='C10.PyPackageSearcher.dir', fn='search_pkg_dir', fixed={}, timeout=t,
              bounds='package directory (delegation to PyFileSearcher) or unimportable package; .py absent/dir/file with unbounded mtime; rebuild'),
         dict(name='C10.exec.PyFileSearcher.real-pyc', fn='real_pyc', fixed=dict(legacy=True), timeout=t,
